@@ -73,6 +73,9 @@ SiteName(r) == Contig(r) \o ":" \o ToString(Pos(r))
 (* the optional field fmt = "nogt"; its gt entries are then not in the file.                                    *)
 NoGt(row) == "fmt" \in DOMAIN row /\ row.fmt = "nogt"
 CallOf(row, s) == IF NoGt(row) THEN G1(Dot) ELSE row.gt[s]
+(* The classification of a call looks at the GT string alone.  A record may list FEWER ALT alleles than its calls refer to *)
+(* (alt = "short": one ALT allele whatever the calls say) - out of spec, but nothing here may depend on the ALT column.    *)
+ShortAlt(row) == "alt" \in DOMAIN row /\ row.alt = "short"
 
 (******************************* Build *******************************)
 BuildProblems ==
@@ -388,7 +391,7 @@ Emit ==
              proj |-> proj,
              strict |-> strict,
              recs |-> [r \in 1..Len(recs) |-> [contig |-> Contig(r), pos |-> Pos(r), bad |-> recs[r].bad,
-                                               nogt |-> NoGt(recs[r]), gt |-> GtJson(recs[r])]],
+                                               nogt |-> NoGt(recs[r]), short_alt |-> ShortAlt(recs[r]), gt |-> GtJson(recs[r])]],
              h |-> h,
              outcome |-> phase,
              diag |-> diag,
